@@ -246,8 +246,8 @@ func init() {
 		Custom: customC05,
 	})
 	addSpec(&Spec{ID: "C14", Title: "excluded fields are inert and embedding equals inlining", Level: "translation_validation",
-		Rule: "programs = base shapes from the C05 universe that have no C05 finding (quick 150 with <= 4 nodes, thorough 500 with <= 5 nodes) and their decorated variants: an excluded field (rotating over 26 forms: lower-case, blank, underscore, multi-name declarations (all unexported; an unexported name added to the declaration of an exported field), " +
-			"non-ASCII lower-case, unexported map/pointer-to-struct/anonymous struct, func with named parameters, parquet:\"-\" on string/map/chan/func/time.Time/slice/interface, other tag keys before/after incl. values with escaped quotes, spaces and colons) inserted at a position of a struct at any nesting level, one variant with a field at every position, " +
+		Rule: "programs = base shapes from the C05 universe that have no C05 finding (quick 150 with <= 4 nodes, thorough 500 with <= 5 nodes) and their decorated variants: an excluded field (rotating over 28 forms: lower-case, blank, underscore, multi-name declarations (all unexported; an unexported name added to the declaration of an exported field), " +
+			"non-ASCII lower-case, unexported map/pointer-to-struct/anonymous struct (also with tagged inner fields), embedded structs tagged parquet:\"-\", func with named parameters, parquet:\"-\" on string/map/chan/func/time.Time/slice/interface, other tag keys before/after incl. values with escaped quotes, spaces and colons) inserted at a position of a struct at any nesting level, one variant with a field at every position, " +
 			"and variants in which a contiguous run of sibling fields is moved into an embedded struct (quick: 2+1+2 variants per base; thorough: every position and every run, and for one base in twelve every form at every position); one base in four is built a second time with field names numbered per struct (nested structs repeat the names around them; all embeddings); " +
 			"every chunk of struct definitions is additionally generated in ONE process through gen.FromStruct and the output compared with the separate parquetgen processes' output; " +
 			"oracle = files byte-identical to the base's for the same records (3 configurations), excluded fields (filled with junk before Add) zero after reading into a fresh struct, values read back; distinct = (base, decoration); non-trivial = decoration below the root or at every position",
